@@ -6,7 +6,8 @@ def _names_after(names, s):
     """very rough frame-name tracking, only to recognise shadowing"""
     op = s["op"]
     if op == "from":
-        return {"t": ["k", "a", "b"], "u": ["k", "a", "c"]}.get(s["t"], [])
+        return {"t": ["k", "a", "b"], "u": ["k", "a", "c"],
+                "table_0": ["k", "_expr_0", "_expr_1"], "table_1": ["k", "_expr_0", "_expr_2"]}.get(s["t"], [])
     if op in ("select", "aggregate"):
         out = []
         for it in s["items"]:
@@ -122,6 +123,8 @@ def tags(prog):
                 walk(s["pipe"], names, depth + 1)
             if op == "append" and len(s["with"]) == 1 and s["with"][0]["op"] == "from":
                 t.add("append-bare")
+            if op == "join" and len(s["with"]) > 1 and any(x["op"] == "take" for x in s["with"]):
+                t.add("join-sub-take")
             if op == "join":
                 inner = []
                 for x in s["with"]:
